@@ -908,6 +908,73 @@ theorem sql_tree_kleene (Γ : List BTy) (u : UTree) (t : TTree) (bt : BTy) (h : 
     exact hrow n cty hb (by rw [this, hn])
   rw [tree_kleene (List.range Γ.length) tris outer souter (by simp [hlen]) t h2 h3 (h4 _ hconf), h5, henv]
 
+/-! ## Comparisons as the typechecker types them -/
+
+theorem cmpOp_strict (op : CmpOp) : strictOf op.name 0 = some true := by
+  cases op <;> decide
+
+theorem conforms_null_nullable (l : ITy) (h : conforms l.toTy .null = true) : l.nullable = true := by
+  cases l <;> first | rfl | (simp [ITy.toTy, conforms] at h)
+
+theorem typecheckCmp_nullable (op : CmpOp) (l r : ITy) (bt : BTy) (h : typecheckCmp op l r = some bt)
+    (hn : l.nullable = true ∨ r.nullable = true) : bt.nullable = true := by
+  revert h hn
+  cases l <;> cases r <;> cases op <;> cases bt <;> decide
+
+/-- **Comparisons return NULL whenever an argument is NULL**, with the static types the real typechecker assigns
+    (`typecheckCmp` mirrors `FunctionExpression.Typecheck` for `<`, `<=`, `=`, `!=`, `>=`, `>` on Int / NULL operands):
+    the result is NULL and the node's type admits NULL. -/
+theorem cmp_typed_null (env : List (List Value)) (schema : List (List Nat)) (op : CmpOp) (l r : ITy) (bt : BTy)
+    (h : typecheckCmp op l r = some bt) (pa pb : PExpr) (hta : pa.ty = l.toTy) (htb : pb.ty = r.toTy) (a b : Value)
+    (hev : evalList env (materializeList schema [pa, pb]) = [a, b].map Res.val)
+    (hca : conforms l.toTy a = true) (hcb : conforms r.toTy b = true) (hnull : a = .null ∨ b = .null) :
+    eval env (materialize schema (.call bt.toTy (tableDesc op.name 0 op.fn) [pa, pb])) = .val .null ∧
+    bt.nullable = true := by
+  have hconf : ∀ (i : Nat) (x : PExpr) (v : Value), [pa, pb][i]? = some x → [a, b][i]? = some v →
+      conforms x.ty v = true := by
+    intro i x v hx hv
+    match i with
+    | 0 => simp at hx hv; subst hx hv; rw [hta]; exact hca
+    | 1 => simp at hx hv; subst hx hv; rw [htb]; exact hcb
+    | n + 2 => simp at hx
+  constructor
+  · rcases hnull with rfl | rfl
+    · exact table_strict_null env schema _ op.name 0 op.fn (cmpOp_strict op) _ _ hev hconf 0 rfl
+    · exact table_strict_null env schema _ op.name 0 op.fn (cmpOp_strict op) _ _ hev hconf 1 rfl
+  · have hn : l.nullable = true ∨ r.nullable = true := by
+      rcases hnull with rfl | rfl
+      · exact Or.inl (conforms_null_nullable l hca)
+      · exact Or.inr (conforms_null_nullable r hcb)
+    exact typecheckCmp_nullable op l r bt h hn
+
+theorem cmpInt_lt (x y : Int) : (cmpInt x y < 0) ↔ x < y := by unfold cmpInt; split <;> (try split) <;> omega
+theorem cmpInt_le (x y : Int) : (cmpInt x y ≤ 0) ↔ x ≤ y := by unfold cmpInt; split <;> (try split) <;> omega
+theorem cmpInt_ge (x y : Int) : (cmpInt x y ≥ 0) ↔ x ≥ y := by unfold cmpInt; split <;> (try split) <;> omega
+theorem cmpInt_gt (x y : Int) : (cmpInt x y > 0) ↔ x > y := by unfold cmpInt; split <;> (try split) <;> omega
+theorem cmpInt_eq (x y : Int) : (cmpInt x y = 0) ↔ x = y := by unfold cmpInt; split <;> (try split) <;> omega
+
+/-- … and on two integers they return what the operator says (no NULL, no error) -/
+theorem cmp_typed_value (env : List (List Value)) (schema : List (List Nat)) (op : CmpOp) (ty : Ty)
+    (pa pb : PExpr) (x y : Int)
+    (hev : evalList env (materializeList schema [pa, pb]) = [Value.int x, Value.int y].map Res.val) :
+    eval env (materialize schema (.call ty (tableDesc op.name 0 op.fn) [pa, pb])) = .val (.bool (op.holds x y)) := by
+  rw [strict_nonnull env schema ty _ [pa, pb] [.int x, .int y] hev (by simp [isNull])]
+  have hc : cmp (.int x) (.int y) = cmpInt x y := rfl
+  cases op <;>
+    simp only [tableDesc, CmpOp.fn, CmpOp.holds, fnLt, fnLe, fnGe, fnGt, fnEq, fnNe, fnCmp, wrapBody, Value.equal, hc,
+      Res.val.injEq, Value.bool.injEq]
+  · exact decide_eq_decide.2 (cmpInt_lt x y)
+  · exact decide_eq_decide.2 (cmpInt_le x y)
+  · rw [show (cmpInt x y == 0) = decide (cmpInt x y = 0) from rfl]; exact decide_eq_decide.2 (cmpInt_eq x y)
+  · rw [show (cmpInt x y == 0) = decide (cmpInt x y = 0) from rfl]
+    have hiff := cmpInt_eq x y
+    by_cases hxy : x = y
+    · subst hxy; simp [(cmpInt_eq x x).2 rfl]
+    · have : ¬ cmpInt x y = 0 := fun hc0 => hxy (hiff.1 hc0)
+      simp [hxy, this]
+  · exact decide_eq_decide.2 (cmpInt_ge x y)
+  · exact decide_eq_decide.2 (cmpInt_gt x y)
+
 /-! ## The property, full strength -/
 
 /-- **C11**, as stated: (1) AND / OR are the Kleene folds for every operand list; (2) NOT's table; (3) every
@@ -1013,6 +1080,10 @@ example : exTree.errorFree = true ∧ exTree.bound [0] = true ∧ exTree.ok (env
 /-- the typechecker accepts NOT (c0 AND TRUE) over a nullable column and types it NULL|Boolean; it rejects NOT NULL -/
 example : ((typecheckU [.bn] (.not (.and (.var 0) (.const (some true))))).map (·.2)) = some .bn := by decide
 example : (typecheckU [.bn] (.not (.const none))).isNone = true := by decide
+
+/-- `c0 < c1` over (NULL|Int, Int) is typed NULL|Boolean; `c0 < NULL` has no overload, `c0 = NULL` has -/
+example : typecheckCmp .lt .ni .i = some .bn ∧ typecheckCmp .lt .i .n = none ∧ typecheckCmp .eq .i .n = some .bn ∧
+    conforms ITy.ni.toTy .null = true ∧ conforms ITy.ni.toTy (.int 3) = true := by decide
 
 /-- Filter on a three-row stream with a watermark: only the TRUE row and the watermark remain -/
 example : filterRun (.var 0 0) []
